@@ -7,6 +7,7 @@ import Driver.ElimTree
 import Driver.NonnegMean
 import Driver.Merge
 import Driver.Assorter
+import Driver.Status
 open Lean Shangrla Shangrla.Drv
 
 def dispatch (g op : String) (a : Json) : R Json :=
@@ -15,6 +16,7 @@ def dispatch (g op : String) (a : Json) : R Json :=
   | "nm" => NMH.handle op a
   | "merge" => MergeH.handle op a
   | "assorter" => AssorterH.handle op a
+  | "status" => StatusH.handle op a
   | _ => throw s!"unknown group {g}"
 
 def handleLine (line : String) : String :=
